@@ -17,10 +17,13 @@ import BlueskyVerif.Bundler.Model
 namespace BlueskyVerif.Bundler
 open Generated
 
-/-- the engine may call `rewind` in this bundler state without losing counters: the checkpoint copy
-    has not been cleared, and the interruptions stream (if any) has a checkpointed counter -/
+/-- the engine may call `rewind` in this bundler state without losing or wrongly resetting counters:
+    the checkpoint copy has not been cleared since it was last filled, and every stream that has a
+    counter also has a checkpointed counter or a descriptor in `_descriptor_objs` (the interruptions
+    stream has no such descriptor: it must have been committed / checkpointed, which the engine
+    guarantees by recording the interruption before it rewinds) -/
 def rewindAdmissible (s : BState) : Bool :=
-  !s.cpCleared && (s.interruptionsDesc.isNone || ahas s.seqCopy "interruptions")
+  !s.cpCleared && s.seq.all fun kv => ahas s.seqCopy kv.1 || (akeys s.descriptors).contains kv.1
 
 /-- a bundler-level history is engine-admissible from `s` when every `rewind` in it is issued in a
     `rewindAdmissible` state -/
